@@ -101,7 +101,7 @@ class Ctx(object):
 
     def finish(self, rule, level_note=None):
         wall = time.time() - self.t0
-        out_dir = os.path.join(VERIF, "evidence")
+        out_dir = os.environ.get("VERIF_EVIDENCE_DIR") or os.path.join(VERIF, "evidence")
         os.makedirs(out_dir, exist_ok=True)
         code = 0
         seen = set()
